@@ -465,6 +465,16 @@ impl FromJson for AnnotationDataSet {
 }
 
 impl AnnotationDataSet {
+    /// Merges the stand-off file named by an @include into this dataset
+    fn merge_included_json_file(&mut self, filename: &str) -> Result<(), StamError> {
+        let reader = open_file_reader(filename, self.config())?;
+        let deserializer = &mut serde_json::Deserializer::from_reader(reader);
+        DeserializeAnnotationDataSet::new_included(self)
+            .deserialize(deserializer)
+            .map_err(|e| StamError::DeserializationError(e.to_string()))?;
+        Ok(())
+    }
+
     pub fn new(config: Config) -> Self {
         Self {
             id: None,
@@ -862,11 +872,23 @@ impl AnnotationStore {
 #[derive(Debug)]
 pub(crate) struct DeserializeAnnotationDataSet<'a> {
     dataset: &'a mut AnnotationDataSet,
+    /// set when deserialising a file that was itself pulled in via @include
+    included: bool,
 }
 
 impl<'a> DeserializeAnnotationDataSet<'a> {
     pub fn new(dataset: &'a mut AnnotationDataSet) -> Self {
-        Self { dataset }
+        Self {
+            dataset,
+            included: false,
+        }
+    }
+
+    fn new_included(dataset: &'a mut AnnotationDataSet) -> Self {
+        Self {
+            dataset,
+            included: true,
+        }
     }
 }
 
@@ -881,6 +903,7 @@ impl<'de> DeserializeSeed<'de> for DeserializeAnnotationDataSet<'_> {
     {
         let visitor = AnnotationDataSetVisitor {
             dataset: &mut self.dataset,
+            included: self.included,
         };
         deserializer.deserialize_map(visitor)?;
         Ok(())
@@ -889,6 +912,7 @@ impl<'de> DeserializeSeed<'de> for DeserializeAnnotationDataSet<'_> {
 
 struct AnnotationDataSetVisitor<'a> {
     dataset: &'a mut AnnotationDataSet,
+    included: bool,
 }
 
 impl<'de> serde::de::Visitor<'de> for AnnotationDataSetVisitor<'_> {
@@ -921,8 +945,14 @@ impl<'de> serde::de::Visitor<'de> for AnnotationDataSetVisitor<'_> {
                 }
                 "@include" => {
                     let filename: String = map.next_value()?;
+                    if self.included {
+                        //the included file must hold the keys and data itself (otherwise a file that includes itself would be loaded forever)
+                        return Err(<A::Error as serde::de::Error>::custom(
+                            "an included AnnotationDataSet file may not itself contain @include",
+                        ));
+                    }
                     self.dataset
-                        .merge_json_file(filename.as_str())
+                        .merge_included_json_file(filename.as_str())
                         .map_err(|e| -> A::Error { serde::de::Error::custom(e) })?;
                     if self.dataset.filename.is_none() {
                         self.dataset.filename = Some(filename);
